@@ -123,7 +123,10 @@ package kgo
 // that amount and the batch is frozen before it is handed to the request. (Assumed: no callee touches the request
 // under construction - `frozen`.)
 //@ func (p *produceRequest) tryAddBatch(produceVersion int32, recBuf *recBuf, batch *recBatch) (ok bool)
-//@   prop C18
+//@   prop C18 C29
+//@   site store seq#0 assert [sequence-reset-to-zero-for-a-new-epoch] val == 0
+//@   site store batch0Seq#0 assert [oldest-sequence-reset-to-zero-for-a-new-epoch] val == 0
+//@   site call addBatch#0 assert [stamped-with-the-partitions-next-sequence] arg4 == recBuf.seq
 //@   frozen p.wireLength, p.wireLengthLimit, recBuf.topic
 //@   site store wireLength#0 assert [request-stays-within-the-limit] val <= p.wireLengthLimit && val == prev + batchWireLength
 //@   site store wireLength#0 assert [known-topic-non-flexible] (exists && !flexible) ==> batchWireLength == $wireLengthForProduceVersion0_0 + 4
